@@ -855,6 +855,12 @@ type c11cCase struct {
 	// Final: what the caller does after the malformed answers: "" = a get, "scan" / "rscan" = a whole-table
 	// scan (forward / reversed from "z") which has to end - rows or an error - after a bounded number of rows
 	Final string `json:"final,omitempty"`
+	// Key2: a further get, for this row, after the final operation (a row whose search key may be the very name
+	// a malformed row got into the cache under)
+	Key2 evid.B `json:"key2,omitempty"`
+	// Key2Early: that get is issued 1 ms after the final operation has started, while the cache still holds
+	// what the malformed answers put there (a region that does not exist is found out by its probe, and replaced)
+	Key2Early bool `json:"key2_early,omitempty"`
 }
 
 type c11Range struct {
@@ -868,6 +874,9 @@ type c11MetaRow struct {
 	RowKey    evid.B `json:"row_key,omitempty"`
 	HasServer bool   `json:"has_server,omitempty"`
 	Server    evid.B `json:"server,omitempty"`
+	// HasStop: the stop key in the rows' region infos is replaced (shorter, longer, below the start key)
+	HasStop bool   `json:"has_stop,omitempty"`
+	Stop    evid.B `json:"stop,omitempty"`
 }
 
 func c11cRun(c c11cCase) (out Outcome) {
@@ -991,6 +1000,9 @@ func c11cMetaInBubble(c c11cCase) (out Outcome) {
 		if r.HasServer {
 			e.Server = append([]byte{}, r.Server...)
 		}
+		if r.HasStop {
+			e.Stop = append([]byte{}, r.Stop...)
+		}
 		cl.MetaRowEdit = append(cl.MetaRowEdit, e)
 	}
 	cl.Unlock()
@@ -1009,6 +1021,34 @@ func c11cMetaInBubble(c c11cCase) (out Outcome) {
 	}
 	// (a panic of a background goroutine of the client ends the process: the driver turns that into a
 	// finding from the journal)
+	var early chan Outcome
+	if len(c.Key2) > 0 && c.Key2Early {
+		early = make(chan Outcome, 1)
+		go func() {
+			var eo Outcome
+			defer func() {
+				if p := recover(); p != nil {
+					buf := make([]byte, 1<<14)
+					eo = viol("panic@"+topFrame(string(buf[:runtime.Stack(buf, false)])), "a get for row %q issued while hbase:meta's malformed answers were being digested panicked in the caller's goroutine: %v", c.Key2, p)
+				}
+				early <- eo
+			}()
+			time.Sleep(time.Millisecond)
+			ctx2, cancel2 := context.WithTimeout(context.Background(), 10*time.Minute)
+			defer cancel2()
+			err2, cerr2 := doOp(client, ctx2, "t", opSpec{Kind: "get", Key: c.Key2, Marker: "mkearly"})
+			if cerr2 != nil {
+				eo = viol("foreign-response", "%v", cerr2)
+			} else if errors.Is(err2, context.DeadlineExceeded) {
+				eo = viol("lookup-never-recovers", "a concurrent get for row %q was still failing 10 virtual minutes later: %v", c.Key2, err2)
+			}
+		}()
+		defer func() {
+			if eo := <-early; eo.Sig != "" && out.Sig == "" {
+				out = eo
+			}
+		}()
+	}
 	var err, cerr error
 	if c.Final == "" {
 		err, cerr = doOp(client, ctx, "t", opSpec{Kind: "get", Key: evid.B("row"), Marker: "mksecond"})
@@ -1047,6 +1087,18 @@ func c11cMetaInBubble(c c11cCase) (out Outcome) {
 		}
 		out.Labels = append(out.Labels, "error_to_caller")
 	}
+	if len(c.Key2) > 0 && !c.Key2Early {
+		ctx2, cancel2 := context.WithTimeout(context.Background(), 10*time.Minute)
+		err2, cerr2 := doOp(client, ctx2, "t", opSpec{Kind: "get", Key: c.Key2, Marker: "mkthird"})
+		cancel2()
+		if cerr2 != nil {
+			return viol("foreign-response", "%v", cerr2)
+		}
+		if errors.Is(err2, context.DeadlineExceeded) {
+			return viol("lookup-never-recovers", "a further get for row %q was still failing 10 virtual minutes later: %v", c.Key2, err2)
+		}
+		out.Labels = append(out.Labels, "second_get")
+	}
 	out.NonTrivial = true
 	switch {
 	case c.Kind == "metarow" && c.Cold:
@@ -1070,7 +1122,7 @@ func TestC11_ClientDecoders(t *testing.T) {
 			"start and stop keys and an id that contradict the key of the row they are served in) before sane ones, read by a request's lookup or by CacheRegions, followed by a get or a forward / reversed whole-table scan - "+
 			"no goroutine of the client panics and the request recovers or fails, it does not hang, spin, or return rows without end; (d) the same with hbase:meta rows whose row key (the "+
 			"region's name: empty, without its separators, equal to a lookup's search key, raw bytes) and/or info:server value is malformed while "+
-			"info:regioninfo is sound, read by a re-establisher or by the caller's own first lookup. Non-trivial = every case except the "+
+			"info:regioninfo is sound, or whose region info is sound but for its stop key (shorter or longer than the start key + 17 bytes of the region probe, below the start key, raw bytes), read by a re-establisher or by the caller's own first lookup. Non-trivial = every case except the "+
 			"well-formed increment; distinct by case hash")
 	Drive(t, rec, true, func(t *rapid.T) c11cCase {
 		switch rapid.IntRange(0, 7).Draw(t, "what") {
@@ -1079,10 +1131,33 @@ func TestC11_ClientDecoders(t *testing.T) {
 			n := rapid.IntRange(1, 3).Draw(t, "nrows")
 			for i := 0; i < n; i++ {
 				var r c11MetaRow
-				what := rapid.IntRange(0, 3).Draw(t, "edit")
+				what := rapid.IntRange(0, 4).Draw(t, "edit")
+				if what == 4 {
+					// a sound row but for the stop key of its region info
+					r.HasStop = true
+					switch rapid.IntRange(0, 4).Draw(t, "stopshape") {
+					case 0:
+						r.Stop = evid.B{}
+					case 1:
+						r.Stop = evid.B(bytes.Repeat([]byte{'a'}, rapid.SampledFrom([]int{1, 17, 18, 19, 30, 300}).Draw(t, "stoplen")))
+					case 2:
+						r.Stop = evid.B(bytes.Repeat([]byte{0}, rapid.SampledFrom([]int{1, 16, 17, 18, 19, 40}).Draw(t, "stopzeros")))
+					case 3:
+						r.Stop = append(evid.B("m"), bytes.Repeat([]byte{0}, rapid.SampledFrom([]int{0, 1, 16, 17, 18, 40}).Draw(t, "stopmzeros"))...)
+					default:
+						r.Stop = evid.B(rapid.SliceOfN(rapid.Byte(), 0, 40).Draw(t, "rawstop"))
+					}
+					c.Rows = append(c.Rows, r)
+					continue
+				}
 				if what != 1 {
 					r.HasKey = true
-					switch rapid.IntRange(0, 7).Draw(t, "keyshape") {
+					switch rapid.IntRange(0, 9).Draw(t, "keyshape") {
+					case 8:
+						// the region's own table and start key, then something that ends like a search key
+						r.RowKey = evid.B(rapid.SampledFrom([]string{"t,m,,:", "t,,,:", "t,m,0,:", "t,m,m,:"}).Draw(t, "skname"))
+					case 9:
+						r.RowKey = append(evid.B(rapid.SampledFrom([]string{"t,m,", "t,,"}).Draw(t, "ownprefix")), rapid.SliceOfN(rapid.SampledFrom([]byte{',', ',', ':', ':', '1', 0, 0xff}), 0, 5).Draw(t, "owntail")...)
 					case 0:
 						r.RowKey = evid.B{}
 					case 1:
@@ -1119,6 +1194,8 @@ func TestC11_ClientDecoders(t *testing.T) {
 				}
 				c.Rows = append(c.Rows, r)
 			}
+			c.Key2 = evid.B(rapid.SampledFrom([]string{"", "m,", "m,", ",", "m,0", "m,m", "a"}).Draw(t, "key2"))
+			c.Key2Early = len(c.Key2) > 0 && rapid.IntRange(0, 3).Draw(t, "key2early") > 0
 			return c
 		case 0:
 			return c11cCase{Kind: "increment", IncLen: rapid.IntRange(0, 12).Draw(t, "len")}
